@@ -18,6 +18,68 @@ K = importlib.util.module_from_spec(_spec)
 _spec.loader.exec_module(K)
 
 
+def apalache_inductive(ctx):
+    """Thorough tier only, evidence only (never changes the verdict, never fails the check): the depth-parametric
+    abstraction spec/crypto/KesInd.tla - (1) TLC: IndInv is an invariant and KesInd's closed-form update is exactly
+    Kes!UpdateLive for Depth 1..5; (2) Apalache: Init => IndInv (Depth symbolic in 1..7) and IndInv /\ Next => IndInv'
+    for every Depth 1..7 (one run per depth, Depth fixed by a cfg - with Depth symbolic the step query stalls in Z3)."""
+    import shutil
+    import subprocess
+    import time
+    t0 = time.time()
+    res = {"module": "spec/crypto/KesInd.tla", "invariant": "IndInv = TypeOK /\\ PeriodInRange /\\ LiveIsPathSiblings /\\ ForwardSecure",
+           "tlc_crosscheck": [], "obligations": [], "discharged": False}
+    try:
+        for d in (1, 2, 3, 4, 5):
+            cfg = ctx.path("MCKesInd%d.cfg" % d)
+            src = open(os.path.join(vlib.SPEC, "crypto", "MCKesInd.cfg")).read()
+            open(cfg, "w").write(src.replace("Depth = 4", "Depth = %d" % d))
+            try:
+                r = ctx.tlc_mc("crypto", "MCKesInd", cfg, workers=2, required_actions=["UpdateOk"], timeout=600)
+                res["tlc_crosscheck"].append({"depth": d, "ok": True, "distinct": r["distinct"]})
+            except vlib.ToolError as e:
+                res["tlc_crosscheck"].append({"depth": d, "ok": False, "error": str(e)[:200]})
+        exe = shutil.which("apalache-mc")
+        if not exe:
+            res["note"] = "apalache-mc not installed: not discharged"
+            return res
+        spec = os.path.join(vlib.SPEC, "crypto", "KesInd.tla")
+        jobs = [("Init => IndInv (Depth symbolic in 1..7, ConstInit)",
+                 ["--cinit=ConstInit", "--init=Init", "--inv=IndInv", "--length=0"], 900)]
+        for d in range(1, 8):
+            cfg = ctx.path("KesInd_step%d.cfg" % d)
+            open(cfg, "w").write("CONSTANTS\n  Depth = %d\nINIT IndInit\nNEXT Next\nINVARIANT IndInv\n" % d)
+            jobs.append(("IndInv /\\ Next => IndInv' (Depth = %d)" % d, ["--config=" + cfg, "--length=1"], 1200))
+        running, pending, done = [], list(enumerate(jobs)), {}
+        while pending or running:
+            while pending and len(running) < 3:
+                i, (name, args, to) = pending.pop(0)
+                log = open(ctx.path("apalache_%d.log" % i), "w")
+                cmd = ["timeout", str(to), exe, "check", "--out-dir=" + ctx.path("apalache_out_%d" % i)] + args + [spec]
+                running.append((i, name, time.time(), subprocess.Popen(cmd, cwd=ctx.work, stdout=log, stderr=subprocess.STDOUT), log))
+            time.sleep(2)
+            for job in list(running):
+                i, name, ts, proc, log = job
+                if proc.poll() is not None:
+                    log.close()
+                    out = open(ctx.path("apalache_%d.log" % i)).read()
+                    ok = proc.returncode == 0 and "The outcome is: NoError" in out
+                    why = "ok" if ok else ("timeout" if proc.returncode == 124 else
+                                           "counterexample" if "The outcome is: Error" in out else "tool error (exit %s)" % proc.returncode)
+                    done[i] = {"obligation": name, "discharged": ok, "result": why, "wall_s": round(time.time() - ts, 1)}
+                    running.remove(job)
+                    ctx.log("apalache: %s -> %s (%.0fs)" % (name, why, time.time() - ts))
+        res["obligations"] = [done[i] for i in sorted(done)]
+        res["discharged"] = bool(done) and all(o["discharged"] for o in done.values()) and all(c["ok"] for c in res["tlc_crosscheck"])
+        for i in range(len(jobs)):
+            shutil.rmtree(ctx.path("apalache_out_%d" % i), ignore_errors=True)
+    except Exception as e:      # evidence only: a tool failure here is recorded, never a check failure
+        res["note"] = "not discharged: %s" % str(e)[:300]
+        res["discharged"] = False
+    res["wall_s"] = round(time.time() - t0, 1)
+    return res
+
+
 def run(ctx):
     binary = ctx.build("pv-crypto")
     ctx.assume("secret material = the 32-byte seed of a tree node (leaf: the Ed25519 signing key itself), derived as documented "
@@ -80,7 +142,13 @@ def run(ctx):
         ok3, m3, _, _ = ctx.tlc_trace("crypto", "TraceKes", "TraceKesC13.cfg", p3, count=False)
         ctx.selftest("drop update event %d (strict reader)" % (iu + 1), (not ok3) and m3 == iu)
 
+    extra = None
+    if ctx.thorough:
+        extra = {"apalache_inductive": apalache_inductive(ctx)}
+        if not extra["apalache_inductive"]["discharged"]:
+            ctx.notes.append("apalache_inductive: not discharged (evidence only, verdict unaffected)")
     return ctx.finish(
+        extra=extra,
         rule="MC: ForwardSecure and the shape of the live set over every evolution history for depths 1..4 (5); M3: every "
              "reachable key state of real keys of depth 1..7 (sum and compact, all 2^d periods, one (five) random seed(s) each) "
              "scanned for all 2^(d+1)-1 node seeds; found sets validated by TraceKes against the live set and ForwardSecure",
